@@ -164,7 +164,7 @@ theorem columnToFloat32_handled {ty : ColType} (h : ty.handled = true) (vs : Lis
     columnToFloat32 ⟨ty, vs⟩ = some (vs.map (toF32 ty)) := by
   simp [columnToFloat32, h]
 
-theorem columnToFloat64_handled {ty : ColType} (h : ty.handled = true) (vs : List Int) :
+theorem columnToFloat64_handled {ty : ColType} (h : ty.handled64 = true) (vs : List Int) :
     columnToFloat64 ⟨ty, vs⟩ = some (vs.map (toF64 ty)) := by
   simp [columnToFloat64, h]
 
@@ -173,7 +173,7 @@ theorem minMaxAccum_init (step : Nat → Nat → Nat) {ty : ColType} (h : ty.han
     minMaxAccum step ⟨true, v⟩ (Batch.ofVals ty vs) = .ok ⟨true, (vs.map (toF32 ty)).foldl step v⟩ := by
   cases vs with
   | nil => simp [minMaxAccum, Batch.ofVals]
-  | cons a t => simp [minMaxAccum, Batch.ofVals, columnToFloat32_handled h]
+  | cons a t => simp [minMaxAccum, Batch.ofVals, columnToFloat32_handled h, h]
 
 theorem finalState_minMax_init (step : Nat → Nat → Nat) {ty : ColType} (h : ty.handled = true)
     (vss : List (List Int)) (v : Nat) :
@@ -210,7 +210,7 @@ theorem finalState_minMax_new (step : Nat → Nat → Nat) (hself : ∀ x, step 
       rw [List.map_cons, finalState]
       have : minMaxAccum step minMaxNew (Batch.ofVals ty (a :: t)) =
           .ok ⟨true, (t.map (toF32 ty)).foldl step (toF32 ty a)⟩ := by
-        simp [minMaxAccum, Batch.ofVals, columnToFloat32_handled h, minMaxNew, hself]
+        simp [minMaxAccum, Batch.ofVals, columnToFloat32_handled h, h, minMaxNew, hself]
       rw [this]; simp only []
       rw [finalState_minMax_init step h, images_cons]
       simp [minMaxOf, List.foldl_append]
@@ -234,7 +234,7 @@ theorem avgAccum_ofVals {ty : ColType} (h : ty.handled = true) (s : Avg) (vs : L
     avgAccum s (Batch.ofVals ty vs) = .ok ((vs.map (toF32 ty)).foldl avgStep s) := by
   cases vs with
   | nil => simp [avgAccum, Batch.ofVals]
-  | cons a t => simp [avgAccum, Batch.ofVals, columnToFloat32_handled h]
+  | cons a t => simp [avgAccum, Batch.ofVals, columnToFloat32_handled h, h]
 
 theorem finalState_avg {ty : ColType} (h : ty.handled = true) (vss : List (List Int)) (s : Avg) :
     finalState avgAccum s (vss.map (Batch.ofVals ty)) = .ok ((images ty vss).foldl avgStep s) := by
